@@ -516,6 +516,9 @@ func loc(fset *token.FileSet, pos token.Pos) string {
 // callSSA interprets a call to function fn with arguments args,
 // and lexical environment env, returning its result.
 // callpos is the position of the callsite.
+// useBody is returned by a model that wants the function's own SSA body interpreted for these arguments.
+type useBody struct{}
+
 func callSSA(i *interpreter, caller *frame, callpos token.Pos, fn *ssa.Function, args []value, env []value) value {
 	if i.mode&EnableTracing != 0 {
 		fset := fn.Prog.Fset
@@ -544,7 +547,10 @@ func callSSA(i *interpreter, caller *frame, callpos token.Pos, fn *ssa.Function,
 			return callSSA(i, caller, callpos, info.stub, args, nil)
 		}
 		if info.ext != nil && (!info.concOnly || !anySym(args)) {
-			return info.ext(fr, args)
+			if r := info.ext(fr, args); r != (useBody{}) {
+				return r
+			}
+			// the model declined: interpret the function's own source
 		}
 		if fn.Blocks == nil && fn.Pkg != nil {
 			fn.Pkg.Build()
